@@ -27,6 +27,7 @@ import (
 	"crypto/rsa"
 	"fmt"
 	"os"
+	"strings"
 
 	"github.com/gopcua/opcua/uapolicy"
 	"verif/engine/evid"
@@ -391,8 +392,9 @@ func enumerate(thorough bool) []cse {
 			sparse := []int{0, 1, pbs - 131, pbs - 130, pbs - 129, pbs - 1, pbs, pbs + 1, 2*pbs - 1, 2 * pbs, 2*pbs + 1}
 			for _, l := range al {
 				// quick: the full length sweep with local = remote size (the local key does not take part in
-				// encryption), a sparse sweep for the other local sizes; thorough: full sweep for every pair
-				if thorough || l == r {
+				// encryption) for the smallest and the largest allowed remote key, a sparse sweep (block
+				// boundaries) for every other pair; thorough: full sweep for every pair
+				if thorough || (l == r && (r == al[0] || r == al[len(al)-1])) {
 					for n := 0; n <= maxN; n++ {
 						out = append(out, cse{"crypt", p.Name, l, r, n})
 					}
@@ -407,8 +409,12 @@ func enumerate(thorough bool) []cse {
 		}
 		for _, l := range al {
 			for _, r := range al {
-				for _, n := range []int{0, 1, 64, 1000} {
-					out = append(out, cse{"sign", p.Name, l, r, n})
+				// the signature only involves the local key: quick runs the corruption sweep with the
+				// smallest remote key only, thorough with every pair
+				if thorough || r == al[0] {
+					for _, n := range []int{0, 1, 64, 1000} {
+						out = append(out, cse{"sign", p.Name, l, r, n})
+					}
 				}
 				out = append(out, cse{"swap", p.Name, l, r, 0})
 			}
@@ -460,6 +466,12 @@ func main() {
 		j := int(seed % uint64(i+1))
 		perm[i], perm[j] = perm[j], perm[i]
 	}
+	// private scratch directory: the shared default is occasionally wiped by concurrent jobs
+	scratch := ""
+	if os.Getenv("VERIF_SCRATCH") == "" && os.Getenv("VERIF_SHARD") == "" {
+		scratch = fmt.Sprintf("/tmp/verif-scratch-%s-%d", strings.ToLower(id), os.Getpid())
+		os.Setenv("VERIF_SCRATCH", scratch)
+	}
 	deaths := evid.Sharded(r, 0, func(s evid.ShardInfo, w *evid.Run) {
 		x := &run{w: w, thorough: evid.Thorough()}
 		for k, idx := range perm {
@@ -482,7 +494,14 @@ func main() {
 			}
 		}
 	})
+	if scratch != "" {
+		os.RemoveAll(scratch)
+	}
 	for _, d := range deaths {
+		// a worker that ended without a crash trace did not die in the code under test: machinery failure
+		if !strings.Contains(d.Stderr, "panic") && !strings.Contains(d.Stderr, "fatal error") && !strings.Contains(d.ExitErr, "signal") {
+			evid.EngineError(id, "worker %d failed without a crash trace (%s), last case %q: %s", d.Shard, d.ExitErr, d.LastCase, d.Stderr)
+		}
 		r.Violate("worker-death", fmt.Sprintf("worker %d died (%s) while running %s\n%s", d.Shard, d.ExitErr, d.LastCase, d.Stderr), d.LastCase)
 	}
 	kinds := map[string]int{}
@@ -490,7 +509,7 @@ func main() {
 		kinds[c.Kind]++
 	}
 	r.Set("cases_by_kind", kinds)
-	r.Rule("full grid, fixed order (VERIF_SEED only permutes): construct = 5 policies x 7 local x 7 remote key choices {nil,512,1024,2048,3072,4096,5120}; crypt = policy x allowed (local,remote) x every plaintext length 0..2*PlainTextBlockSize+1 (quick: full sweep where local size = remote size, 11 boundary lengths for the other local sizes; thorough: 0..3*PTBS+1 for every pair); sign = policy x allowed pairs x message lengths {0,1,64,1000}, each with every signature byte x XOR masks (3 quick / 10 thorough), 6 wrong-length signatures, every single-byte message change; swap = policy x allowed pairs with exchanged keys. Every case is non-trivial; distinct = distinct (kind, policy, local bits, remote bits, length[, corrupted position, mask]) tuples executed")
+	r.Rule("full grid, fixed order (VERIF_SEED only permutes): construct = 5 policies x 7 local x 7 remote key choices {nil,512,1024,2048,3072,4096,5120}; crypt = policy x allowed (local,remote) x every plaintext length 0..2*PlainTextBlockSize+1 (quick: full sweep where local size = remote size = smallest or largest allowed key, 11 block-boundary lengths for every other pair; thorough: 0..3*PTBS+1 for every pair); sign = policy x allowed local key x (quick: smallest remote key; thorough: every remote key) x message lengths {0,1,64,1000}, each with every signature byte x XOR masks (3 quick / 10 thorough), 6 wrong-length signatures, every single-byte message change; swap = policy x allowed pairs with exchanged keys. Every case is non-trivial; distinct = distinct (kind, policy, local bits, remote bits, length[, corrupted position, mask]) tuples executed")
 	r.Assume("RSA primitives (PKCS#1 v1.5, OAEP, PSS) come from Go's crypto/rsa on both sides; what is compared is block splitting, hash choice, salt length, key roles and key size limits", "key sizes are those of the committed test keys: 512, 1024, 2048, 3072, 4096, 5120 bits")
 	r.Finish()
 }
